@@ -954,3 +954,74 @@ def run_linpath(prog, ctx=None):
     parts = _parallel(_path_root, len(roots))
     _collect(res, parts)
     return res
+
+
+# =====================================================================================================================
+# LINCODEC (C01): the frame encoders write inside the output vector they are handed
+# =====================================================================================================================
+def iovec_inv(an, st, obj, prefix, assume):
+    ln = st.env.get(("f", obj, prefix + "iov_len"))
+    if assume:
+        if obj is None:
+            return None
+        if isinstance(ln, Lin):
+            st.add(Lin.const(PTRDIFF_MAX) - ln)
+            st.env[("f", obj, prefix + "iov_base")] = Ptr(Region("*%s%siov_base" % (obj, prefix), ln, "contract"), Lin.const(0), True)
+        return None
+    return []
+
+
+def _codec_root(i):
+    prog, roots, fileset = _G["prog"], _G["roots"], _G["fileset"]
+    f = roots[i]
+    agg, undecided, stats = {}, set(), {}
+    an = LinAnalysis(prog, invariants={"iovec": iovec_inv}, contracts={})
+    an.max_returns = 12
+    an.state_budget = 8000
+    an.policy = (lambda fr, g: "inline" if g.file in fileset else "modular")
+
+    def pre(an2, st, fr):
+        # encoder state: byte counts of one object; what was encoded so far (finished part + open block) lies in the
+        # output vector of this call (it was written there by the previous calls)
+        info = out = None
+        for p in f.params:
+            pv = st.env.get(("v", fr.id, p["id"]))
+            if isinstance(pv, ObjPtr):
+                rec = an2.objrec.get((pv.obj, pv.prefix), "")
+                if rec.endswith("encode_state"):
+                    info = pv
+                elif rec == "iovec" and out is None:
+                    out = pv
+        if info is None:
+            return
+        done = st.env.get(("f", info.obj, info.prefix + "done"))
+        scr = st.env.get(("f", info.obj, info.prefix + "scratch"))
+        for x in (done, scr):
+            if isinstance(x, Lin):
+                st.add(Lin.const(PTRDIFF_MAX) - x)
+        if out is not None:
+            ln = st.env.get(("f", out.obj, out.prefix + "iov_len"))
+            if isinstance(done, Lin) and isinstance(scr, Lin) and isinstance(ln, Lin):
+                st.add(ln - done - scr)
+    an.pre_run = pre
+    entry, fr, outs = an.analyse_root(f)
+    for k in ("states", "paths", "inlined"):
+        stats[k] = an.stats.get(k, 0)
+    _merge_obls(an, f, agg, undecided, stats)
+    cut = None
+    if an.over_budget:
+        undecided.add("LIN:%s:budget" % f.name)
+        cut = f.name
+    return {"agg": agg, "undecided": undecided, "stats": stats, "assumed": an.assumed, "cut": cut}
+
+
+def run_lincodec(prog, ctx=None):
+    res = Result("LINCODEC")
+    files = sorted(x for x in (ctx.get("files", []) if ctx else []) if x.startswith("mptcore/convert/encode_") and x.endswith(".c"))
+    roots = sorted([f for f in prog.funcs_in(files) if not f.nocfg], key=lambda f: (f.file, f.line, f.name))
+    if len(roots) < 4:
+        raise Broken("LINCODEC: only %d encoder functions found" % len(roots))
+    _G.update(prog=prog, roots=roots, fileset=set(files))
+    parts = _parallel(_codec_root, len(roots))
+    _collect(res, parts)
+    return res
